@@ -29,6 +29,12 @@ add("C07", T_EFF, "DESIGN.md §4 C07",
     "Purity of 39 read-only entry points by effect closure over the whole-crate call graph (closed world: private fields, checked); dispatch table of update_order (one remove of the own id, result returned as is, price test against self.price, error/not-found without effects), amend returns what it pushed and rewrites the display exactly as the reference for with_reduced_quantity says. Structural necessary conditions, decided on all paths.")
 add("C08", T_EFF, "DESIGN.md §4 C08",
     "Publish order inside push (map insert before ticket), every map entry ticketed (who-may-call on the two containers), single hand-out through the map removal, nothing dropped (balance without aliasing, parked orders drained), private storage. Sufficient on paper for 'exactly one taker' given linearizable containers; no schedule is explored.")
+add("C09", T_EFF, "DESIGN.md §4 C09",
+    "Must-pass-through and provenance rules on the restore path: from_snapshot_json/from_snapshot_package can only obtain a snapshot as the Ok payload of into_snapshot, which returns the untouched field after validate(&self); validate reaches Ok only through the version-equality and the checksum-equality facts; the checksum is the full SHA-256 digest of serde_json::to_vec of the whole snapshot, whose hand-written Serialize emits every field; the hand-written reader rejects unknown/duplicate/missing keys; who-may-read the protected field. With collision resistance and serde_json's totality (trusted) every content-changing edit is rejected. No fault is injected.")
+add("C10", T_EFF, "DESIGN.md §4 C10",
+    "Every construction site of a PriceLevel derives its counters from the orders it queues (refresh_aggregates fold or new()+add_order), carried aggregates of PriceLevelData / the text form are never read, the listing is a timestamp-sorted collect over the map, the snapshot constructors have no error path. Field equality after a trip rests on C16/C17's codec tables.")
+add("C14", T_EFF, "DESIGN.md §4 C14",
+    "UuidGenerator::next performs exactly one atomic fetch_add(1) and returns new_v5(&self.namespace, bytes(to_string(<that payload>))); the counter is private and written nowhere else; new() stores the namespace unchanged; no nondeterministic source in the closure; one draw per transaction. Sufficient for uniqueness under every interleaving given no SHA-1 collision and no counter wrap.")
 add("C11", T_EFF, "DESIGN.md §4 C11",
     "One necessary condition: does the snapshot's order list encode queue position at all (known finding: it is sorted by user timestamp), plus order preservation of the restore path and that nothing else re-orders the listing. Behavioural equivalence over continuations is not statically decided.")
 add("C12", T_EFF, "DESIGN.md §4 C12",
